@@ -421,7 +421,7 @@ def _gen_model_op(r, root, path, m, sp, malformed):
         return {'k': 'setattr', 'kind': 'req-set', 'path': path, 'attr': name, 'val': val, 'parent': path, 'field': f}
     if c == 'rep':
         kind, tys = fields[f]
-        if api['rep'][name][1] and r.random() < 0.12 and not sp:
+        if api['rep'][name][1] and not sp and r.random() < (0.35 if any(isinstance(x, models.BlockComment) for x in getattr(m, name)) else 0.1):
             meth = r.choice(['claim_interleaving_comments', 'unclaim_interleaving_comments', 'unclaim_interleaving_comments'])
             args = []
             if r.random() < 0.45:
